@@ -42,7 +42,12 @@ def kf_subscribe_in_multi(finding):
     return queued_sub and ('AssertionError' in detail or 'StopIteration' in detail)
 
 
-KF_PREDICATES = {'subscribe_in_multi': kf_subscribe_in_multi}
+def kf_gate_after_missing_key(finding):
+    """subscriber mode: a command whose key is missing is answered by Signature.apply's short-circuit (nil / 0 / empty) before the mode check"""
+    return finding.get('clause') == 'subscriber_mode_refuses' and 'short-circuit: Signature.apply answered for a missing key' in str(finding.get('detail'))
+
+
+KF_PREDICATES = {'subscribe_in_multi': kf_subscribe_in_multi, 'gate_after_missing_key': kf_gate_after_missing_key}
 
 
 def replay_known(kf, prop):
@@ -56,14 +61,19 @@ def replay_known(kf, prop):
             rec = json.load(open(path))
             evs = [corr.ev_from_json(e) for e in rec['events']]
             im = I.Impl(version=rec.get('version', 7), seed=0)
-            crash = None
+            crash, last = None, None
             for e in evs:
                 if e[0] == 'open':
                     im.open(e[1])
                 elif e[0] == 'cmd':
-                    _, c, _, _ = im.send(e[1], corr.encode_request(e[2]))
+                    o, c, _, _ = im.send(e[1], corr.encode_request(e[2]))
                     crash = crash or c
-            if crash:
+                    last = o.get(e[1], [])
+            if rec.get('expect_kind') == 'last_reply_not_error':
+                still = bool(last) and not isinstance(last[0], I.RawError)
+            else:
+                still = bool(crash)
+            if still:
                 out.append('KNOWN-FINDING: property=%s %s %s' % (prop, k['id'], k['what']))
         except Exception as ex:     # a broken replay file must not hide anything
             out.append('KNOWN-FINDING-REPLAY-ERROR: %s %r' % (k.get('id'), ex))
